@@ -75,7 +75,7 @@ class C10(core.Prop):
     correspondence = "values.num_to_str / str_to_num / checks.number vs Num.Model (render, parse, check_number) on exact rationals"
     rule = ("render cases: formats (8 sexagesimal, 22 printf-style) x values {boundary classes enumerated: negatives in (-1,0), values within "
             "half a unit of every field carry, integers, width-overflowing, +-0.0, +-1e9} + random finite values in [-1e9,1e9]; thorough adds the "
-            "complete resolution grids of %.3m/%.5m/%.6m on [-360,360] and dense sub-grids of %.8m/%.9m; parse cases: every string up to a bounded "
+            "complete resolution grid of %.3m on [-360,360] and sub-grids (prime strides, about 130000 points each) of %.5m/%.6m/%.8m/%.9m; parse cases (each parsed under %f, two sexagesimal and two integer formats, and sent to %f, %.6m and %d elements of a driver): every string up to a bounded "
             "length over a 14-symbol alphabet (digits, '.', ':', ';', blank, sign, a letter, a non-ASCII digit); non-trivial = render case, or parse "
             "case of a string the grammar accepts; distinct by (format, value) / string")
     assumptions = ["float -> exact rational on input and exact rational -> nearest float on output of str_to_num are single correctly rounded "
@@ -119,7 +119,7 @@ class C10(core.Prop):
             for f in (fmts if tier == "thorough" else rng.sample(fmts, 9) + ["%.3m", "%.9m", "%f", "%d"]):
                 cases.append({"type": "render", "fmt": f, "value": enc})
         if tier == "thorough":
-            for code, U, step in (("3", 60, 1), ("5", 600, 1), ("6", 3600, 1), ("8", 36000, 7), ("9", 360000, 61)):
+            for code, U, step in (("3", 60, 1), ("5", 600, 11), ("6", 3600, 61), ("8", 36000, 601), ("9", 360000, 6007)):
                 for k in range(-360 * U, 360 * U + 1, step):
                     for d in (0.0, 0.49, -0.49):
                         cases.append({"type": "render", "fmt": "%%.%sm" % code, "value": ((k + d) / U).hex()})
@@ -186,7 +186,7 @@ class C10(core.Prop):
             return "model rejected input"
         if bool(mout[0]) != obs["valid"]:
             return "validator differs on %r: impl %s model %s" % (c["text"], obs["valid"], bool(mout[0]))
-        for k in ("as_f", "as_m", "as_m9"):
+        for k in ("as_f", "as_m", "as_m9", "as_d", "as_d5"):
             if not self.same_number(obs[k], self.mval(mout[1])):
                 return "str_to_num differs on %r (%s): impl %s model %s" % (c["text"], k, obs[k], mout[1])
         return None
@@ -221,7 +221,7 @@ class C10(core.Prop):
         d = ref_denote(c["text"])
         if obs["valid"] != (d is not None):
             return "validator: %r %s by checks.number but is %s INDI number" % (c["text"], "accepted" if obs["valid"] else "rejected", "an" if d is not None else "no")
-        for k in ("as_f", "as_m", "as_m9"):
+        for k in ("as_f", "as_m", "as_m9", "as_d", "as_d5"):
             b = as_frac(obs[k])
             if d is None:
                 if b is not None:
